@@ -92,6 +92,8 @@ class Recorder:
         self.excluded = Counter()     # kf_id -> number of cases whose failure matched a known finding
         self._pending = None
         self.max_violations = 20
+        self.tier = 'quick'
+        self.seed = 1
 
     def execute(self, case):
         try:
@@ -160,66 +162,6 @@ class Recorder:
             self.note_violation(case, unknown)
         return unknown
 
-    def export(self):
-        return {'evals': self.evals, 'nt': self.nt, 'nt_enum': self.nt_enum, 'classes': self.classes,
-                'samples': self.samples, 'nt_samples': self.nt_samples, 'violations': self.violations,
-                'excluded': self.excluded}
-
-    def absorb(self, d):
-        self.evals += d['evals']
-        self.nt |= d['nt']
-        self.nt_enum += d['nt_enum']
-        self.classes.update(d['classes'])
-        self.excluded.update(d['excluded'])
-        for s in d['samples']:
-            if len(self.samples) < 6:
-                self.samples.append(s)
-        for s in d['nt_samples']:
-            if len(self.nt_samples) < 6:
-                self.nt_samples.append(s)
-        for c, fs in d['violations']:
-            self.note_violation(c, fs)
-
-
-_WORKER = {}
-
-
-def _pool_entry(arg):
-    modname, fname, shard, tier, seed = arg
-    import importlib
-    mod = importlib.import_module(modname)
-    rec = Recorder(mod)
-    rec.tier = tier
-    rec.seed = seed
-    getattr(mod, fname)(rec, shard)
-    return rec.export()
-
-
-class Ctx(Recorder):
-    def __init__(self, mod, tier, seed):
-        super().__init__(mod)
-        self.pid = mod.PID
-        self.tier = tier
-        self.seed = seed
-        self.t0 = time.time()
-        self.notes = []
-        self.exhaustive = None
-        self.extra = {}
-        self.known_lines = []
-
-    # ---- drivers -------------------------------------------------------------------------------
-    def pmap(self, fname, shards):
-        """Run mod.<fname>(recorder, shard) for each shard on a process pool and merge the counts."""
-        args = [(self.mod.__name__, fname, s, self.tier, self.seed) for s in shards]
-        if NPROC <= 1 or len(args) <= 1:
-            for a in args:
-                self.absorb(_pool_entry(a))
-            return
-        ctx = multiprocessing.get_context('fork')
-        with ctx.Pool(min(NPROC, len(args))) as pool:
-            for d in pool.imap_unordered(_pool_entry, args):
-                self.absorb(d)
-
     def hyp(self, strategy, max_examples, body=None, label='', shrink=True, seed_offset=0):
         """Drive `body(drawn)` (default: self.run(case)) with Hypothesis; shrink the first unknown failure."""
         import hypothesis
@@ -287,6 +229,66 @@ class Ctx(Recorder):
                 self.note_violation(case, fs + [fail('flaky', str(exc)[:300])])
             else:
                 raise HarnessError(f'flaky in {label}: {exc}') from exc
+
+    def export(self):
+        return {'evals': self.evals, 'nt': self.nt, 'nt_enum': self.nt_enum, 'classes': self.classes,
+                'samples': self.samples, 'nt_samples': self.nt_samples, 'violations': self.violations,
+                'excluded': self.excluded}
+
+    def absorb(self, d):
+        self.evals += d['evals']
+        self.nt |= d['nt']
+        self.nt_enum += d['nt_enum']
+        self.classes.update(d['classes'])
+        self.excluded.update(d['excluded'])
+        for s in d['samples']:
+            if len(self.samples) < 6:
+                self.samples.append(s)
+        for s in d['nt_samples']:
+            if len(self.nt_samples) < 6:
+                self.nt_samples.append(s)
+        for c, fs in d['violations']:
+            self.note_violation(c, fs)
+
+
+_WORKER = {}
+
+
+def _pool_entry(arg):
+    modname, fname, shard, tier, seed = arg
+    import importlib
+    mod = importlib.import_module(modname)
+    rec = Recorder(mod)
+    rec.tier = tier
+    rec.seed = seed
+    getattr(mod, fname)(rec, shard)
+    return rec.export()
+
+
+class Ctx(Recorder):
+    def __init__(self, mod, tier, seed):
+        super().__init__(mod)
+        self.pid = mod.PID
+        self.tier = tier
+        self.seed = seed
+        self.t0 = time.time()
+        self.notes = []
+        self.exhaustive = None
+        self.extra = {}
+        self.known_lines = []
+
+    # ---- drivers -------------------------------------------------------------------------------
+    def pmap(self, fname, shards):
+        """Run mod.<fname>(recorder, shard) for each shard on a process pool and merge the counts."""
+        args = [(self.mod.__name__, fname, s, self.tier, self.seed) for s in shards]
+        if NPROC <= 1 or len(args) <= 1:
+            for a in args:
+                self.absorb(_pool_entry(a))
+            return
+        ctx = multiprocessing.get_context('fork')
+        with ctx.Pool(min(NPROC, len(args))) as pool:
+            for d in pool.imap_unordered(_pool_entry, args):
+                self.absorb(d)
 
     def elapsed(self):
         return time.time() - self.t0
